@@ -324,6 +324,22 @@ def check_route(ctx, wctx, GW, rule, only=ENTRY_ALL, min_n=4):
                 if r_ is None or r_[1] == 1:
                     casts.append(callee(x)[1].get('name'))      # a conversion to whole seconds or coarser
             n_route += 1
+            if nm == 'cctz::format':
+                # the sub-second part rendered is the remainder split_seconds hands back, converted as it is (truncation):
+                # arithmetic on it before the conversion (rounding) changes the last digit shown
+                from ..facts import FactEngine
+                Ff = wctx.facts(f)
+                dcs = [x for x in callx if callee(x)[0] == 'fn' and callee(x)[1].get('name') in ('duration_cast', 'floor', 'round', 'ceil')
+                       and 'femto' in (u.expand_type(dtype(x) or qtype(x)) + (dtype(x) or '') + (qtype(x) or '')).replace(' ', '').lower() or
+                       (callee(x)[0] == 'fn' and callee(x)[1].get('name') in ('duration_cast', 'floor', 'round', 'ceil') and
+                        '1000000000000000' in u.expand_type(dtype(x) or qtype(x)).replace(' ', ''))]
+                for x in dcs:
+                    ak = Ff.ident_key(call_args(x)[0])
+                    plain = bool(re.match(r'^cctz::detail::split_seconds\(.*\)\.second$', ak)) and callee(x)[1].get('name') == 'duration_cast'
+                    ctx.check(plain, rule, 'format(%s) renders the remainder of split_seconds as it is' % ','.join(targs)[:50], x,
+                              'the sub-second part handed to the formatter is %s(%s), not the plain conversion of split_seconds(tp).second: '
+                              'the fraction is rounded or shifted instead of truncated' % (callee(x)[1].get('name'), ak[:120]),
+                              construct='route:format:fraction')
             via = 'split_seconds' in calls or (nm == 'cctz::convert' and 'lookup' in calls)
             ctx.check(via and not casts, rule, '%s(%s) takes its second from split_seconds' % (nm.split('::')[-1], ','.join(targs)[:60]), f,
                       'a templated entry point converts the time point to seconds itself (%s) instead of through split_seconds: '
